@@ -109,11 +109,70 @@ func VH_C05_results() {
 	committed := false
 	adderDone := true
 	withAdder := zz.Param("adder", 1) == 1 && zz.Bool("concurrent_add_first")
-	commit := func() {
-		if !committed {
-			model = append([]task.Task{pending}, model...)
-			committed = true
+	ticksAtCommit := -1
+	// The result a handler returned is applied by the worker later, under the queue
+	// lock; until the harness can tell that this has happened the result is "in flight".
+	type vhResult struct {
+		t          task.Task
+		keep       bool
+		hd, af, tl []task.Task
+	}
+	var inflight *vhResult
+	apply := func(r *vhResult, m []task.Task) []task.Task {
+		pos := -1
+		for i := range m {
+			if m[i] == r.t {
+				pos = i
+			}
 		}
+		var m2 []task.Task
+		m2 = append(m2, r.hd...)
+		if pos < 0 {
+			m2 = append(m2, m...)
+			m2 = append(m2, r.tl...)
+			return m2
+		}
+		m2 = append(m2, m[:pos]...)
+		if r.keep {
+			m2 = append(m2, r.t)
+		}
+		m2 = append(m2, r.af...)
+		m2 = append(m2, m[pos+1:]...)
+		m2 = append(m2, r.tl...)
+		return m2
+	}
+	same := func(a, b []task.Task) bool {
+		if len(a) != len(b) {
+			return false
+		}
+		for i := range a {
+			if a[i] != b[i] {
+				return false
+			}
+		}
+		return true
+	}
+	flush := func() {
+		if inflight != nil {
+			model = apply(inflight, model)
+			inflight = nil
+		}
+	}
+	// commit: the producer's task is in the queue (it is the head right now).  Whether
+	// an in-flight result was applied before or after it is read off the queue itself.
+	commit := func() {
+		if committed {
+			return
+		}
+		if inflight != nil && len(q.items) > 0 {
+			if applied := apply(inflight, model); same(q.items[1:], applied) {
+				model = applied
+				inflight = nil
+			}
+		}
+		model = append([]task.Task{pending}, model...)
+		committed = true
+		ticksAtCommit = zz.TicksLeft()
 	}
 	q.WithHandler(func(t task.Task) TaskResult {
 		running++
@@ -121,7 +180,13 @@ func VH_C05_results() {
 		if pending != nil && t == pending {
 			commit()
 		}
-		zz.Assert(len(model) > 0 && t == model[0], "handler_gets_the_head_task")
+		// the worker applied the previous result before it picked this task
+		flush()
+		// the handled task is the head of the queue at the moment the worker picked it.
+		// The producer may have put its task in front between that pick and this call;
+		// the worker cannot have waited for a timer in between (it picks after waiting).
+		overtaken := committed && len(model) > 1 && model[0] == pending && t == model[1] && zz.TicksLeft() == ticksAtCommit
+		zz.Assert(len(model) > 0 && (t == model[0] || overtaken), "handler_gets_the_head_task")
 		if prevFailed && len(model) > 0 && model[0] == prevTask {
 			zz.Assert(t == prevTask, "failed_task_is_retried_before_any_other")
 			zz.Assert(t.GetFailureCount() == prevFailures+1, "failure_count_incremented_once")
@@ -156,23 +221,8 @@ func VH_C05_results() {
 			res.HeadTasks = all[:len(hd)]
 			res.AfterTasks = all[len(hd) : len(hd)+len(af)]
 			res.TailTasks = all[len(hd)+len(af):]
-			// the list model of the documented placement (t is wherever it is now)
-			pos := 0
-			for i := range model {
-				if model[i] == t {
-					pos = i
-				}
-			}
-			var m2 []task.Task
-			m2 = append(m2, hd...)
-			m2 = append(m2, model[:pos]...)
-			if st == Keep {
-				m2 = append(m2, t)
-			}
-			m2 = append(m2, af...)
-			m2 = append(m2, model[pos+1:]...)
-			m2 = append(m2, tl...)
-			model = m2
+			// the documented placement is applied to the list model when the worker has applied it
+			inflight = &vhResult{t: t, keep: st == Keep, hd: append([]task.Task{}, hd...), af: append([]task.Task{}, af...), tl: append([]task.Task{}, tl...)}
 		}
 		running--
 		return res
@@ -190,6 +240,7 @@ func VH_C05_results() {
 	zz.WaitUntil(func() bool {
 		return adderDone && (q.Status == "stop" || (len(q.items) == 0 && running == 0 && calls > 0 && q.Status == ""))
 	})
+	flush()
 	if q.Status != "stop" {
 		// the queue ran dry before the call budget was used
 		zz.Assert(len(model) == 0, "queue_empty_only_when_model_empty")
